@@ -14,8 +14,9 @@ Definition lz5_fill_bytes : list N :=
 Section Lz5.
   Context {cbs : Type}.
   Variable cb : callback cbs.
-  (* Value of the bytes of a local buffer that the callback did not write
-     (cmd[1] when only one of two bytes was delivered). *)
+  (* Value of bytes of a local buffer that the callback did not write.  Since the
+     fix "a copy command needs both of its bytes" no such byte is read any more;
+     the parameter is kept so that the interfaces built on it stay unchanged. *)
   Variable junk : N.
 
   Definition lz5_init : outcome lz5_state :=
@@ -57,8 +58,8 @@ Section Lz5.
         let '(bs, c') := cb c 2 in
         match bs with
         | [] => Ok (s, o, c')
-        | c0 :: rest =>
-          let c1 := match rest with [] => junk | x :: _ => x end in
+        | [_] => let _unused := junk in Ok (s, o, c')   (* callback(cmd, 2) < 2: break *)
+        | c0 :: c1 :: _ =>
           let seqstart := N.lor (N.shiftl (N.land c1 240) 4) c0 in
           let seqlen := N.land c1 15 + lz5_THRESHOLD in
           '(s', o') <- lz5_output_block (N.to_nat seqlen) s o seqstart 0 ;;
